@@ -398,6 +398,28 @@ func valEq(a, b ssa.Value) bool {
 	return false
 }
 
+// sameVal: valEq, or two extractions of the same field of the same struct value / the same element.
+func sameVal(a, b ssa.Value) bool {
+	if valEq(a, b) {
+		return true
+	}
+	fa, ok1 := a.(*ssa.Field)
+	fb, ok2 := b.(*ssa.Field)
+	if ok1 && ok2 && fa.Field == fb.Field && sameVal(fa.X, fb.X) {
+		return true
+	}
+	ua, ok1 := a.(*ssa.UnOp)
+	ub, ok2 := b.(*ssa.UnOp)
+	if ok1 && ok2 && ua.Op == token.MUL && ub.Op == token.MUL {
+		ga, ok1 := ua.X.(*ssa.FieldAddr)
+		gb, ok2 := ub.X.(*ssa.FieldAddr)
+		if ok1 && ok2 && ga.Field == gb.Field && sameVal(ga.X, gb.X) {
+			return true
+		}
+	}
+	return false
+}
+
 // nilOnEdge: does leaving b via succIdx establish `v == nil`?
 func nilOnEdge(b *ssa.BasicBlock, succIdx int, v ssa.Value) bool {
 	for _, f := range eqOnEdge(b, succIdx) {
